@@ -139,78 +139,147 @@ func checkGo(w *World, r *Report, parent *ssa.Function, g *ssa.Go) {
 	} else {
 		r.bad("RACE", key+":e:done", w.pos(lit.Pos()), "the worker does not start with defer wg.Done(): a panic or early return would leave Wait hanging or let it return early")
 	}
-	// (c) range shape
+	// (c) range shape. Everything is judged on values of the parent function: a parameter
+	// of the worker stands for the argument of the go statement, a captured variable (or a
+	// parent local) that is assigned exactly once stands for the value assigned. So the range
+	// may be computed inside the worker from its index parameter, or by the parent before the
+	// go statement and passed in.
 	args := sliceCall.Call.Args // m, in, out, outStart, outEnd, dataStart, dataEnd
-	if len(args) != 7 || len(lit.Params) != 1 {
+	if len(args) != 7 || len(lit.Params) != len(g.Call.Args) {
 		r.unk("RACE", key+":c:range", w.ipos(sliceCall), "unexpected applyMatrixSlice signature")
 		return
 	}
-	iParam := lit.Params[0]
-	capOf := func(v ssa.Value) *ssa.Alloc { // load of free var -> parent cell
-		ld, ok := v.(*ssa.UnOp)
-		if !ok || ld.Op != token.MUL {
+	storeOf := func(al *ssa.Alloc) ssa.Value {
+		var v ssa.Value
+		n := 0
+		for _, ref := range referrersOf(al) {
+			if st, ok := ref.(*ssa.Store); ok && st.Addr == ssa.Value(al) {
+				v = st.Val
+				n++
+			}
+		}
+		if n != 1 {
 			return nil
 		}
-		fv, ok := ld.X.(*ssa.FreeVar)
-		if !ok {
-			return nil
+		return v
+	}
+	var res func(v ssa.Value) ssa.Value
+	res = func(v ssa.Value) ssa.Value {
+		for k := 0; k < 8; k++ {
+			switch x := v.(type) {
+			case *ssa.Parameter:
+				if x.Parent() == lit {
+					for i, p := range lit.Params {
+						if p == x {
+							v = g.Call.Args[i]
+						}
+					}
+					if v == ssa.Value(x) {
+						return v
+					}
+					continue
+				}
+				return v
+			case *ssa.UnOp:
+				if x.Op != token.MUL {
+					return v
+				}
+				var cell *ssa.Alloc
+				switch y := x.X.(type) {
+				case *ssa.FreeVar:
+					for i, f := range lit.FreeVars {
+						if f == y {
+							cell, _ = mc.Bindings[i].(*ssa.Alloc)
+						}
+					}
+				case *ssa.Alloc:
+					cell = y
+				}
+				if cell == nil {
+					return v
+				}
+				sv := storeOf(cell)
+				if sv == nil {
+					return cell
+				}
+				v = sv
+				continue
+			}
+			return v
 		}
-		for i, f := range lit.FreeVars {
-			if f == fv {
-				if al, ok := mc.Bindings[i].(*ssa.Alloc); ok {
-					return al
+		return v
+	}
+	// the spawning loop's induction variable
+	var loopPhi *ssa.Phi
+	if l := innermostLoop(naturalLoops(parent), g.Block()); l != nil {
+		for _, in := range l.head.Instrs {
+			phi, ok := in.(*ssa.Phi)
+			if !ok {
+				break
+			}
+			for _, e := range phi.Edges {
+				if bo, ok := e.(*ssa.BinOp); ok && bo.Op == token.ADD && bo.X == ssa.Value(phi) {
+					if c, ok := constInt(bo.Y); ok && c == 1 {
+						loopPhi = phi
+					}
 				}
 			}
 		}
-		return nil
 	}
-	matchRange := func(start, end ssa.Value) (p, n *ssa.Alloc, why string) {
-		mul, ok := start.(*ssa.BinOp)
+	if loopPhi == nil {
+		r.unk("RACE", key+":c:range", w.ipos(g), "the loop that starts the goroutines has no induction variable i = i+1")
+		return
+	}
+	matchRange := func(start, end ssa.Value) (p, n ssa.Value, why string) {
+		mul, ok := res(start).(*ssa.BinOp)
 		if !ok || mul.Op != token.MUL {
 			return nil, nil, "start is not i*P"
 		}
+		mx, my := res(mul.X), res(mul.Y)
 		var pv ssa.Value
-		if mul.X == ssa.Value(iParam) {
-			pv = mul.Y
-		} else if mul.Y == ssa.Value(iParam) {
-			pv = mul.X
+		if mx == ssa.Value(loopPhi) {
+			pv = my
+		} else if my == ssa.Value(loopPhi) {
+			pv = mx
 		} else {
 			return nil, nil, "start is not the goroutine's index times the per-goroutine length"
 		}
-		p = capOf(pv)
-		if p == nil {
-			return nil, nil, "the per-goroutine length is not a captured loop-invariant variable"
+		if _, isCell := pv.(*ssa.Alloc); isCell {
+			return nil, nil, "the per-goroutine length is a variable that is assigned more than once"
 		}
-		phi, ok := end.(*ssa.Phi)
+		phi, ok := res(end).(*ssa.Phi)
 		if !ok || len(phi.Edges) != 2 {
 			return nil, nil, "end is not min(start+P, N)"
 		}
 		var sum *ssa.BinOp
-		var nv ssa.Value
+		var nvEdge ssa.Value
 		for _, e := range phi.Edges {
 			if bo, ok := e.(*ssa.BinOp); ok && bo.Op == token.ADD {
 				sum = bo
 			} else {
-				nv = e
+				nvEdge = e
 			}
 		}
-		if sum == nil || nv == nil || !((sum.X == start && capOf(sum.Y) == p) || (sum.Y == start && capOf(sum.X) == p)) {
+		if sum == nil || nvEdge == nil {
 			return nil, nil, "end is not start+P clamped"
 		}
-		n = capOf(nv)
-		if n == nil {
-			return nil, nil, "the clamp bound is not a captured loop-invariant variable"
+		sx, sy := res(sum.X), res(sum.Y)
+		if !((sx == ssa.Value(mul) && sy == pv) || (sy == ssa.Value(mul) && sx == pv)) {
+			return nil, nil, "end is not start+P clamped"
+		}
+		n = res(nvEdge)
+		if _, isCell := n.(*ssa.Alloc); isCell {
+			return nil, nil, "the clamp bound is a variable that is assigned more than once"
 		}
 		// the clamp condition: sum > N chooses N
 		okCond := false
 		for _, ref := range referrersOf(sum) {
-			if bo, ok := ref.(*ssa.BinOp); ok && bo.Op == token.GTR && bo.X == ssa.Value(sum) && capOf(bo.Y) == n {
+			if bo, ok := ref.(*ssa.BinOp); ok && bo.Op == token.GTR && bo.X == ssa.Value(sum) && res(bo.Y) == n {
 				for _, r2 := range referrersOf(bo) {
 					if iff, ok := r2.(*ssa.If); ok {
-						// true edge must lead to the N value: phi edge from true successor is nv
 						tb := iff.Block().Succs[0]
 						for pi, pred := range phi.Block().Preds {
-							if pred == tb && phi.Edges[pi] == nv {
+							if pred == tb && phi.Edges[pi] == nvEdge {
 								okCond = true
 							}
 						}
@@ -221,31 +290,29 @@ func checkGo(w *World, r *Report, parent *ssa.Function, g *ssa.Go) {
 		if !okCond {
 			return nil, nil, "the clamp is not `if end > N { end = N }`"
 		}
-		return p, n, ""
+		return pv, n, ""
 	}
 	isZero := func(v ssa.Value) bool { c, ok := constInt(v); return ok && c == 0 }
-	outCell := capOf(args[2])
-	inCell := capOf(args[1])
-	var P, N *ssa.Alloc
+	outParam, inParam := ssa.Value(parent.Params[2]), ssa.Value(parent.Params[1])
+	var P, N ssa.Value
 	dim := ""
 	why := ""
 	if isZero(args[3]) {
 		// outStart..outEnd whole: outEnd == len(out)
-		lc := isBuiltinCall(args[4], "len")
-		if lc != nil && capOf(lc.Call.Args[0]) == outCell && outCell != nil {
+		lc := isBuiltinCall(res(args[4]), "len")
+		if lc != nil && res(lc.Call.Args[0]) == outParam && res(args[2]) == outParam {
 			P, N, why = matchRange(args[5], args[6])
 			dim = "data"
 		} else {
 			why = "the out dimension is not passed whole (0, len(out))"
 		}
 	} else if isZero(args[5]) {
-		// data whole: dataEnd == len(in[0])
+		// data whole: dataEnd == len(in[0]) (or len(out[0]))
 		whole := false
-		if lc := isBuiltinCall(args[6], "len"); lc != nil {
-			p := valuePath(lc.Call.Args[0])
-			if fv, ok := p.Root.(*ssa.FreeVar); ok && p.Path == "[*]" {
-				for i, f := range lit.FreeVars {
-					if f == fv && (mc.Bindings[i] == ssa.Value(inCell) || mc.Bindings[i] == ssa.Value(outCell)) {
+		if lc := isBuiltinCall(res(args[6]), "len"); lc != nil {
+			if ld, ok := lc.Call.Args[0].(*ssa.UnOp); ok && ld.Op == token.MUL {
+				if ia, ok := ld.X.(*ssa.IndexAddr); ok {
+					if base := res(ia.X); base == inParam || base == outParam {
 						whole = true
 					}
 				}
@@ -266,33 +333,18 @@ func checkGo(w *World, r *Report, parent *ssa.Function, g *ssa.Go) {
 	}
 	r.ok("RACE", key+":c:range", w.ipos(sliceCall), "range is [i*P, min(i*P+P, N)) over the "+dim+" dimension, the other dimension whole")
 	// N is the true length; P is result #0 of calculateParallelParams(N, ...), stored unscaled
-	storeOf := func(al *ssa.Alloc) ssa.Value {
-		var v ssa.Value
-		n := 0
-		for _, ref := range referrersOf(al) {
-			if st, ok := ref.(*ssa.Store); ok && st.Addr == ssa.Value(al) {
-				v = st.Val
-				n++
-			}
-		}
-		if n != 1 {
-			return nil
-		}
-		return v
-	}
-	nv := storeOf(N)
+	nv := N
 	okN := false
 	if lc := isBuiltinCall(nv, "len"); lc != nil {
 		p := deepPath(lc.Call.Args[0])
-		outParam := parent.Params[2]
-		if dim == "data" && p.Root == ssa.Value(outParam) && p.Path == "[*]" {
+		if dim == "data" && p.Root == outParam && p.Path == "[*]" {
 			if ia, ok := lc.Call.Args[0].(*ssa.UnOp); ok {
 				if x, ok := ia.X.(*ssa.IndexAddr); ok && isZero(x.Index) {
 					okN = true
 				}
 			}
 		}
-		if dim == "out" && p.Root == ssa.Value(outParam) && p.Path == "" {
+		if dim == "out" && p.Root == outParam && p.Path == "" {
 			okN = true
 		}
 	}
@@ -301,7 +353,7 @@ func checkGo(w *World, r *Report, parent *ssa.Function, g *ssa.Go) {
 	} else {
 		r.bad("RACE", key+":c:N", w.ipos(g), "the clamp bound N is not the length of the partitioned dimension of out")
 	}
-	pv := storeOf(P)
+	pv := P
 	var cpp *ssa.Call
 	if ex, ok := pv.(*ssa.Extract); ok && ex.Index == 0 {
 		cpp = callOf(ex.Tuple, "rsec16.calculateParallelParams")
@@ -311,14 +363,7 @@ func checkGo(w *World, r *Report, parent *ssa.Function, g *ssa.Go) {
 		return
 	}
 	// arg0 must be N's value
-	a0 := cpp.Call.Args[0]
-	a0ok := false
-	if ld, ok := a0.(*ssa.UnOp); ok && ld.X == ssa.Value(N) {
-		a0ok = true
-	}
-	if a0 == nv {
-		a0ok = true
-	}
+	a0ok := res(cpp.Call.Args[0]) == nv
 	minC, okMin := constInt(cpp.Call.Args[2])
 	divC, okDiv := constInt(cpp.Call.Args[3])
 	switch {
@@ -358,7 +403,6 @@ func checkGo(w *World, r *Report, parent *ssa.Function, g *ssa.Go) {
 		}
 	}
 	// the go's argument is the loop phi; its bound
-	loopPhi, _ := g.Call.Args[0].(*ssa.Phi)
 	boundOK, startOK, stepOK := false, false, false
 	if loopPhi != nil {
 		for _, e := range loopPhi.Edges {
